@@ -579,6 +579,42 @@ def rule_data_phase_model(ctx) -> None:
                    "; ".join(probs[:2])[:700], "", A.loc(MB, ctx.own(MB, "McuBoot", "_read_data").node))
 
 
+def rule_sdp_status_rearm(ctx) -> None:
+    """C10.sdp-status-rearm: on the serial SDP link the reader tells a HAB status word from data by the flag `expect_status`; SDP._read_data
+    clears it for the data phase.  Every frame written to the device therefore re-arms it: a method of the protocol class that calls
+    `self.device.write` directly assigns `self.expect_status = True` on every path before the write, and no method writes otherwise than
+    through such a method - otherwise the status word of the command that follows a read is taken for data and dropped."""
+    SP = "spsdk/sdp/protocol/serial_protocol.py"
+    k = ctx.cls(SP, "SDPSerialProtocol")
+    clears = [n for n in ast.walk(ctx.own(SDP, "SDP", "_read_data").node) if isinstance(n, ast.Assign) and norm(n.targets[0]).endswith(".expect_status") and norm(n.value) == "False"]
+    reads = [n for n in ast.walk(ctx.own(SP, "SDPSerialProtocol", "read").node) if isinstance(n, ast.Attribute) and n.attr == "expect_status"]
+    if not clears or not reads:
+        raise AnalysisError("C10.sdp-status-rearm: the expect_status protocol (cleared by SDP._read_data, read by SDPSerialProtocol.read) was not found")
+    n = 0
+    for name, fl in sorted(k.methods.items()):
+        for f in fl:
+            writes = [c for c in A.calls_in(f.node) if norm(c.func) == "self.device.write"]
+            if not writes:
+                continue
+            n += 1
+            ctx.chk.analysed(f.qual)
+            bad = None
+            for q in A.gpaths(f.node):
+                armed = False
+                for st in q.stmts:
+                    if isinstance(st, ast.Assign) and norm(st.targets[0]) == "self.expect_status" and norm(st.value) == "True":
+                        armed = True
+                    if any(norm(c.func) == "self.device.write" for c in A.calls_in(st)) and not armed:
+                        bad = st
+                        break
+                if bad is not None:
+                    break
+            ctx.chk.decide(bad is None, "C10.sdp-status-rearm", f.qual, "expect_status is set before the frame is written, on every path",
+                           f"`{norm(bad)[:80]}` writes to the device without re-arming expect_status: after a read, the next command's HAB status word is treated as data" if bad is not None else "",
+                           "self.expect_status = True; self.device.write(data)", A.loc(SP, bad if bad is not None else f.node))
+    ctx.chk.floor("C10.sdp-status-rearm", 1)
+
+
 def run(ctx) -> None:
     ctx.chk.explain("C10: for every McuBoot/SDP operation the command response must flow into the StatusCode.SUCCESS comparison and every data phase / positive return must be control "
                     "dependent on the passing branch; data phases agree with the HAS_DATA_PHASE flag and the packet tag; chunking (_split_data, USB chunked read, SDP read loop) is "
@@ -591,6 +627,7 @@ def run(ctx) -> None:
     ctx.rule(rule_registry)
     ctx.rule(rule_bounded)
     ctx.rule(rule_data_phase_model)
+    ctx.rule(rule_sdp_status_rearm)
     ctx.chk.assumptions = ["device reads raise on timeout (interfaces/device/base.py contract)", "the interface models used for the loop evaluation return at most the requested number of bytes",
                            "not decided: arbitrary fault histories, exact bytes on the wire, USB-HID report framing"]
 
